@@ -13,7 +13,7 @@ import itertools
 from hypothesis import strategies as st
 
 from vf import lab
-from vf.core import Prop, Outcome
+from vf.core import Prop, Outcome, fd
 
 from deep.api.deep import Deep
 from deep.grpc import convert_response
@@ -184,7 +184,7 @@ def check_effects(out, tp_id, row, seen, tag='row'):
     return True
 
 
-ROW_STRATEGY = st.fixed_dictionaries({name: st.sampled_from(vals_) for name, vals_ in AXES})
+ROW_STRATEGY = fd({name: st.sampled_from(vals_) for name, vals_ in AXES})
 
 
 class C11(Prop):
@@ -217,10 +217,10 @@ class C11(Prop):
             yield {'mode': 'row', 'row': row_from_index(i)}
 
     def strategy(self, tier):
-        row = st.fixed_dictionaries({'mode': st.just('row'), 'row': ROW_STRATEGY})
-        member = st.fixed_dictionaries({'row': ROW_STRATEGY, 'loc': st.sampled_from([0, 0, 0, 1]),
+        row = fd({'mode': st.just('row'), 'row': ROW_STRATEGY})
+        member = fd({'row': ROW_STRATEGY, 'loc': st.sampled_from([0, 0, 0, 1]),
                                         'bad': st.sampled_from([None, None, None, 'stage', 'metric'])})
-        response = st.fixed_dictionaries({'mode': st.just('response'), 'members': st.lists(member, min_size=1, max_size=5),
+        response = fd({'mode': st.just('response'), 'members': st.lists(member, min_size=1, max_size=5),
                                           'via': st.sampled_from(['poll', 'poll', 'register'])})
         return st.one_of(row, response, response)
 
